@@ -296,6 +296,17 @@ class _Fold(ast.NodeTransformer):
             if n.args[0].func.id == "filter":
                 return ast.ListComp(elt=ast.Name(id=v, ctx=ast.Load()), generators=[ast.comprehension(target=tgt, iter=it, ifs=[lam.body], is_async=0)])
             return ast.ListComp(elt=lam.body, generators=[ast.comprehension(target=tgt, iter=it, ifs=[], is_async=0)])
+        if isinstance(n.func, ast.Name) and n.func.id in ("filter", "map", "groupby", "sorted", "min", "max") and n.func.id not in self.bound:
+            # operator.attrgetter('a') as a function value is lambda x: x.a
+            def _ag(x):
+                if isinstance(x, ast.Call) and ast.unparse(x.func) in ("attrgetter", "operator.attrgetter") and len(x.args) == 1 and not x.keywords and isinstance(x.args[0], ast.Constant) \
+                        and isinstance(x.args[0].value, str) and x.args[0].value.isidentifier():
+                    return ast.Lambda(args=ast.arguments(posonlyargs=[], args=[ast.arg(arg="_ag")], kwonlyargs=[], kw_defaults=[], defaults=[]),
+                                      body=ast.Attribute(value=ast.Name(id="_ag", ctx=ast.Load()), attr=x.args[0].value, ctx=ast.Load()))
+                return x
+            n.args = [_ag(a) for a in n.args]
+            for k_ in n.keywords:
+                k_.value = _ag(k_.value)
         if isinstance(n.func, ast.Name) and n.func.id == "getattr" and "getattr" not in self.bound and len(n.args) == 2 and not n.keywords and isinstance(n.args[1], ast.Constant) \
                 and isinstance(n.args[1].value, str) and n.args[1].value.isidentifier():
             return ast.Attribute(value=n.args[0], attr=n.args[1].value, ctx=ast.Load())
@@ -706,7 +717,10 @@ def subst(e: Optional[ast.AST], env: Dict[str, ast.AST]) -> Optional[ast.AST]:
 
 
 def _simplify(e: ast.AST) -> ast.AST:
-    """A few constant folds that matter for guards: `<Constructor>(...) is None`, `None is None`, not <const>."""
+    """A few constant folds that matter for guards: `<Constructor>(...) is None`, `None is None`, not <const>, membership in an empty display."""
+    if isinstance(e, ast.Compare) and len(e.ops) == 1 and isinstance(e.ops[0], (ast.In, ast.NotIn)) and isinstance(e.comparators[0], (ast.Tuple, ast.List, ast.Set, ast.Dict)) \
+            and not (e.comparators[0].elts if not isinstance(e.comparators[0], ast.Dict) else e.comparators[0].keys):
+        return ast.Constant(value=isinstance(e.ops[0], ast.NotIn))  # nothing is in an empty display
     if isinstance(e, ast.Compare) and len(e.ops) == 1 and isinstance(e.ops[0], (ast.Is, ast.IsNot)):
         l, r = e.left, e.comparators[0]
         if isinstance(l, ast.Name) and isinstance(r, ast.Name) and l.id == r.id:
@@ -724,8 +738,10 @@ def _simplify(e: ast.AST) -> ast.AST:
 
 class Summariser:
     def __init__(self, fn: ast.FunctionDef, follow_exc: bool = False, nonempty: Optional[Callable[[ast.For, Dict[str, ast.AST]], bool]] = None, limit: int = 20000,
-                 opaque: Optional[Callable[[ast.AST], bool]] = None, stop_at_raise: bool = True, keep: Iterable[str] = (), fold=None, pure_calls: Iterable[str] = (), records: Optional[Dict[str, List[str]]] = None, bool_returns: bool = False):
+                 opaque: Optional[Callable[[ast.AST], bool]] = None, stop_at_raise: bool = True, keep: Iterable[str] = (), fold=None, pure_calls: Iterable[str] = (), records: Optional[Dict[str, List[str]]] = None, bool_returns: bool = False,
+                 sentinels: Iterable[str] = ()):
         self.fn = lowered(_bool_returns(fn) if bool_returns else fn)
+        self.sentinels = set(sentinels)  # module-private names bound to object(): nothing but the module itself can hold them
         self.cfg = CFG(self.fn)
         self.follow_exc = follow_exc
         self.nonempty = nonempty or (lambda f, env: False)
@@ -743,6 +759,18 @@ class Summariser:
             self.bound.add(fn.args.kwarg.arg)
         self.count = 0
         self._conds: Dict[str, ast.AST] = {}
+        # names of this function that are only ever bound by a `for` (or are parameters): they hold elements / arguments, never a private sentinel
+        stored_other = set()
+        for_targets = set()
+        for n in ast.walk(self.fn):
+            if isinstance(n, (ast.For, ast.comprehension)):
+                for_targets |= set(_names(n.target))
+        for n in ast.walk(self.fn):
+            if isinstance(n, (ast.Assign, ast.AnnAssign, ast.AugAssign, ast.NamedExpr, ast.withitem)):
+                tg = n.targets if isinstance(n, ast.Assign) else ([n.optional_vars] if isinstance(n, ast.withitem) and n.optional_vars is not None else ([n.target] if not isinstance(n, ast.withitem) else []))
+                for t in tg:
+                    stored_other |= set(_names(t))
+        self.element_names = (for_targets - stored_other) | {a.arg for a in fn.args.posonlyargs + fn.args.args + fn.args.kwonlyargs if a.arg not in stored_other and a.arg not in for_targets}
 
     # -- public --------------------------------------------------------------
     def paths(self) -> List[PathSummary]:
@@ -796,7 +824,8 @@ class Summariser:
                     yield self._emit(hist, effects, "raise", env)
                     return
             elif node.kind in ("break", "continue"):
-                effects = effects + [Eff(node.kind, None, None, node.line, lstack, node.ast)]
+                if not getattr(node.ast, "_once_exit", False):  # leaving a synthetic Once block is not an effect of the program
+                    effects = effects + [Eff(node.kind, None, None, node.line, lstack, node.ast)]
             elif node.kind == "with_enter":
                 env = dict(env)
                 for item in node.ast.items:
@@ -936,6 +965,16 @@ class Summariser:
     def _decide(self, t: ast.AST, truth: Dict[str, bool], ep: Dict[str, int] = {}) -> Iterator[Tuple[Dict[str, bool], Dict[str, bool], Optional[bool]]]:
         """Short-circuit evaluation of a closed-form test: yields (truth', newly decided atoms, value|None)."""
         t = _simplify(t)
+        if isinstance(t, ast.Compare) and len(t.ops) == 1 and isinstance(t.ops[0], (ast.Is, ast.IsNot)) and isinstance(t.left, ast.Name) and isinstance(t.comparators[0], ast.Name):
+            a_, b_ = t.left.id, t.comparators[0].id
+            if (a_ in self.sentinels and b_ in self.element_names) or (b_ in self.sentinels and a_ in self.element_names):
+                t = ast.Constant(value=isinstance(t.ops[0], ast.IsNot))  # an element of a collection / an argument is not the module's private sentinel
+        if isinstance(t, ast.Compare) and len(t.ops) == 1 and isinstance(t.ops[0], (ast.Is, ast.IsNot)):
+            for s_side, o_side in ((t.left, t.comparators[0]), (t.comparators[0], t.left)):
+                if isinstance(s_side, ast.Name) and s_side.id in self.sentinels and isinstance(o_side, ast.Call) and isinstance(o_side.func, ast.Attribute) \
+                        and not any(isinstance(n_, ast.Name) and n_.id in self.sentinels for n_ in ast.walk(o_side)):
+                    t = ast.Constant(value=isinstance(t.ops[0], ast.IsNot))  # what a method of another object returns is not this module's private sentinel
+                    break
         if isinstance(t, ast.Constant):
             yield truth, {}, bool(t.value)
             return
@@ -1089,6 +1128,12 @@ class Summariser:
                 if isinstance(t, ast.Name):
                     new_eff.append(Eff("bind", ast.Name(id=t.id, ctx=ast.Load()), v, line, lstack, st, self._bind(env, t.id, v)))
                 elif isinstance(t, (ast.Tuple, ast.List)) and all(isinstance(x, ast.Name) for x in t.elts):
+                    if isinstance(v, (ast.Tuple, ast.List)) and len(v.elts) == len(t.elts) and not any(isinstance(y, ast.Starred) for y in v.elts):
+                        # a, b = (x, y): every element was already closed under the bindings in force before the statement, so the
+                        # pairwise bindings can be recorded one by one
+                        for i, x in enumerate(t.elts):
+                            new_eff.append(Eff("bind", ast.Name(id=x.id, ctx=ast.Load()), v.elts[i], line, lstack, st, self._bind(env, x.id, v.elts[i])))
+                        continue
                     new_eff.append(Eff("bind", t, v, line, lstack, st))
                     for i, x in enumerate(t.elts):
                         if isinstance(v, (ast.Tuple, ast.List)) and len(v.elts) == len(t.elts) and not any(isinstance(y, ast.Starred) for y in v.elts):
@@ -1236,6 +1281,23 @@ def _as_genexp(e: ast.AST) -> Optional[ast.GeneratorExp]:
             if inner is None:
                 return ast.GeneratorExp(elt=ast.Name(id=v, ctx=ast.Load()),
                                         generators=[ast.comprehension(target=ast.Name(id=v, ctx=ast.Store()), iter=e.args[1], ifs=[e.args[0].body], is_async=0)])
+        if e.func.id in ("filter", "map") and len(e.args) == 2 and not isinstance(e.args[0], ast.Lambda) and not (isinstance(e.args[0], ast.Constant) and e.args[0].value is None) \
+                and substitutable(e.args[0]) and _as_genexp(e.args[1]) is not None and len(_as_genexp(e.args[1]).generators) == 1 and substitutable(_as_genexp(e.args[1]).elt):
+            # over a generator (E for v in IT if C): filter(f, ..) is (E for v in IT if C if f(E)), map(f, ..) is (f(E) for v in IT if C)
+            inner = copy.deepcopy(_as_genexp(e.args[1]))
+            call = ast.Call(func=copy.deepcopy(e.args[0]), args=[copy.deepcopy(inner.elt)], keywords=[])
+            g = inner.generators[0]
+            if e.func.id == "filter":
+                g.ifs = list(g.ifs) + [call]
+                return ast.GeneratorExp(elt=inner.elt, generators=[g])
+            return ast.GeneratorExp(elt=call, generators=[g])
+        if e.func.id in ("filter", "map") and len(e.args) == 2 and not isinstance(e.args[0], ast.Lambda) and not (isinstance(e.args[0], ast.Constant) and e.args[0].value is None) \
+                and substitutable(e.args[0]) and _as_genexp(e.args[1]) is None:
+            # filter(f, it) / map(f, it) with a function value that can be named again: (x for x in it if f(x)) / (f(x) for x in it)
+            v = "_fx"
+            call = ast.Call(func=copy.deepcopy(e.args[0]), args=[ast.Name(id=v, ctx=ast.Load())], keywords=[])
+            comp = ast.comprehension(target=ast.Name(id=v, ctx=ast.Store()), iter=e.args[1], ifs=[call] if e.func.id == "filter" else [], is_async=0)
+            return ast.GeneratorExp(elt=ast.Name(id=v, ctx=ast.Load()) if e.func.id == "filter" else call, generators=[comp])
         if e.func.id == "map" and len(e.args) == 2 and isinstance(e.args[0], ast.Lambda) and len(e.args[0].args.args) == 1:
             v = e.args[0].args.args[0].arg
             inner = _as_genexp(e.args[1])
@@ -1303,6 +1365,16 @@ class _Reducer:
                 d[n.id] = d.get(n.id, 0) + 1
             if isinstance(n, ast.Assign) and len(n.targets) == 1 and isinstance(n.targets[0], ast.Name):
                 vals[n.targets[0].id] = n.value
+        # names bound by the function itself outside comprehensions (parameters, assignments, loop targets ...)
+        self.outer_bound = {a.arg for a in ast.walk(fn.args) if isinstance(a, ast.arg)}
+        def _outer(node):
+            for ch in ast.iter_child_nodes(node):
+                if isinstance(ch, (ast.ListComp, ast.SetComp, ast.DictComp, ast.GeneratorExp, ast.Lambda)):
+                    continue
+                if isinstance(ch, ast.Name) and isinstance(ch.ctx, (ast.Store, ast.Del)):
+                    self.outer_bound.add(ch.id)
+                _outer(ch)
+        _outer(fn)
         self.once = {nm for nm in vals if stores.get(nm) == 1 and loads.get(nm) == 1}  # locals written once and read once
         self.const_tuples = {nm: v for nm, v in vals.items() if stores.get(nm) == 1 and isinstance(v, ast.Tuple) and v.elts and all(isinstance(x, ast.Constant) for x in v.elts)}
         self.defs = {}
@@ -1549,8 +1621,14 @@ class _Reducer:
         ren = {}
         for comp in g.generators:
             for nm in _names(comp.target):
-                if nm in self.taken and nm != name:
-                    ren[nm] = nm  # same spelling is fine when it is only this comprehension's (checked below)
+                if nm == name or nm in self.outer_bound:
+                    ren[nm] = self.fresh(nm.strip("_") or "v")  # the comprehension's own variable: it must not overwrite the function's local of the same name
+        if ren:
+            # the first generator's iterable is evaluated in the enclosing scope; everything else sees the comprehension's variables
+            first_iter = g.generators[0].iter
+            for n_ in ast.walk(g):
+                if isinstance(n_, ast.Name) and n_.id in ren and not any(n_ is x for x in ast.walk(first_iter)):
+                    n_.id = ren[n_.id]
         load = lambda: ast.Name(id=name, ctx=ast.Load())
         store = lambda: ast.Name(id=name, ctx=ast.Store())
 
@@ -1586,6 +1664,11 @@ class _Reducer:
                 # [E for v in (c1, c2, ..)]: the display of E's instances
                 v = g.generators[0].target.id
                 return [assign(ast.List(elts=[_Sub({v: c}).visit(copy.deepcopy(g.elt)) for c in it.elts], ctx=ast.Load()))]
+        if kind == "collect" and single and not g.generators[0].ifs and not any(isinstance(n_, (ast.IfExp, ast.BoolOp)) for n_ in ast.walk(g.elt)):
+            # a plain map over one iterable decides nothing: it stays the comprehension it is (resolvable as a closed form)
+            v = ast.ListComp(elt=g.elt, generators=g.generators)
+            v._sfa_kept = True
+            return [assign(ast.copy_location(v, at))]
         if kind == "collect":
             app = ast.copy_location(ast.Expr(value=ast.Call(func=ast.Attribute(value=load(), attr="append", ctx=ast.Load()), args=[g.elt], keywords=[])), at)
             return [assign(ast.List(elts=[], ctx=ast.Load()))] + self._loops(g, [app], at)
